@@ -15,16 +15,16 @@ REGISTRY = {
     'C02': ('c02', []),
     'C18': ('c18', []),
     'C10': ('c10', []),
-    'C04': ('c04', ['convergence of the Anderson-accelerated iteration on affine loops is numerics outside the model (partial)']),
+    'C04': ('c04', ['convergence of the Anderson-accelerated iteration on affine loops is numerics outside the model (partial)', 'the coupling values a refinement step observes are recorded from the run; how the bounds follow them is modelled (Model/Bounds.v)']),
     'C13': ('c13', ['signals delivered inside C extensions or inside the final bookkeeping statements are not modelled (partial)']),
     'C14': ('c14', ['the imputed value (ridge regression) is an oracle of the model']),
-    'C12': ('c12', ['PyYAML float round trip, pickle and base64 blobs, file search are trusted codecs exercised by the save/move/load runs']),
+    'C12': ('c12', ['PyYAML float round trip, pickle and base64 blobs are trusted codecs exercised by the save/move/load runs; the file search is modelled with the file system abstracted to booleans (Model/Search.v)']),
     'C19': ('c19', ['side effects through global state (matplotlib, logging handlers, the file system) are exercised, not modelled']),
     'C15': ('c15', ['real thread/process scheduling, pickling and races inside user models are not modelled (partial)']),
     'C16': ('c16', ['log/exp are parameters of the model; Log chains are checked by the round-trip oracle only', 'SVD projection matrices are oracles (orthonormality checked numerically)']),
     'C09': ('c09', ['Leja point placement (scipy DIRECT) and the model function are oracles of the model']),
-    'C08': ('c08', ['the look-ahead predictions and relative errors that feed the scan are recomputed from public calls, not modelled']),
-    'C07': ('c07', ['networkx condensation/topological_sort is an oracle: its output order is checked, not modelled']),
+    'C08': ('c08', ['the look-ahead predictions that feed the scan are recomputed from public calls; relative errors, their maximum and the cost division are modelled in squares (select_sq) and compared on those predictions']),
+    'C07': ('c07', ['networkx condensation/topological_sort is not modelled: the plan it delivers is checked on every run by the extracted plan_ok (Model/Graph.v), proved sound and complete for the strongly connected components in Props/C07X.v']),
     'C06': ('c06', ['Anderson mixing (constrained_lls: batched QR/pinv) is an oracle of the model', 'tolerances of harness/c06.py']),
     'C20': ('c20', ['CPython hash randomisation as exercised by PYTHONHASHSEED in child processes']),
     'C11': ('c11', ['tolerances of harness/c11.py: 1e-8 * sum|data| / minsep^order (1e-4 inside a snapping band)']),
